@@ -229,6 +229,31 @@ def check(pid, tier, seed, t0, st, replay):
                                            detail=payload[:300], expected_results=obs2[k] * mult, got=nrows, program=KITCHEN, how='scan the program, then run the query with `pathfinder query --output json`'))
                 break
         res.coverage['kind_typed_predicate_queries'] = len(prq)
+        # the same basic query per kind through the command AS RELEASED (telemetry key linked in, metrics not disabled;
+        # proxies point at a dead port): every kind can still be selected
+        if os.path.exists(B + '/pathfinder-release'):
+            renv = dict(ENV, HOME=work + '/relhome', HTTPS_PROXY='http://127.0.0.1:9', HTTP_PROXY='http://127.0.0.1:9', https_proxy='http://127.0.0.1:9', http_proxy='http://127.0.0.1:9')
+            os.makedirs(work + '/relhome', exist_ok=True)
+            nrel = 0
+            for k in ks:
+                rc, o, e = run([B + '/pathfinder-release', 'query', '--project', proj2, '--output', 'json', '--query', 'FROM %s AS x SELECT x' % k], timeout=120, env=renv)
+                nrel += 1
+                evals += 1
+                doc = next((l for l in o.decode('utf-8', 'replace').split('\n') if l.startswith('{"output"')), None)
+                nrows = -1
+                if doc is not None:
+                    try:
+                        nrows = len(qrun.parse_result(doc)[1] or [])
+                    except Exception:
+                        pass
+                if rc != 0 or nrows != obs2[k]:
+                    res.violations.append(dict(property=pid, what='kind %s is produced by the scanner but cannot be selected with the command as released (telemetry key linked in, metrics enabled)' % k,
+                                               query='FROM %s AS x SELECT x' % k, exit_status=rc, expected_results=obs2[k], got=nrows, stderr=e.decode(errors='replace')[-300:], program=KITCHEN,
+                                               how='go build -ldflags "-X .../analytics.PublicKey=<key>" (as the Dockerfile and the release workflow do); pathfinder query --project D --output json --query <query> without --disable-metrics'))
+                    break
+            res.coverage['release_build_queries'] = nrel
+        else:
+            res.tie_broken.append('the release-like build of the CLI failed (see .build/cli-release.log)')
         res.coverage.update(dict(
             evaluations=evals, distinct_nontrivial=len(observed), exhaustive=(not unseen),
             rule='every entity kind observed on the kitchen-sink family (all supported constructs, all 19 operators) is queried with `FROM k AS x SELECT x` and one accessor-based WHERE through the real processQuery; expected = number of entities of that kind in graph.Initialize; distinct = kinds',
